@@ -517,6 +517,12 @@ func (s *Sim) crashLocked(inc *incarnation, kind string) {
 		case "last":
 			lost[n-1] = true
 			return lost
+		case "torn":
+			// keep the head of what was being written, lose its tail
+			if n >= 2 {
+				lost[n-1] = true
+			}
+			return lost
 		}
 		mode := s.tape.Draw(4)
 		if s.k.SectorLoss == "all-or-none" && mode >= 2 {
